@@ -337,6 +337,15 @@ def gen_case(item, rng, tier):
             reg0['R'][rng.choice(['R%dusr' % rng.randrange(8), 'SPusr', 'SPsvc', 'R%dusr' % rng.randrange(13)])] = BIG + size - rng.choice([1, 2, 3, 4, 5, 8, 9, 0x10, 0x40, 0x1000, 0x10000, 0x10004])
         if rng.random() < 0.5:
             reg0['sys']['sctlr'] &= ~1                 # MPU / MMU off: the accesses reach the device
+    if item['k'] == 'stream' and rng.random() < 0.1:
+        # RAM in the last page of the address space, pointers at its last words (address arithmetic that passes 2^32 with memory really there)
+        core['devices'].append({'kind': 'ram', 'begin': 0xFFFFF000, 'end': 0x100000000})
+        for _ in range(4):
+            reg0['R'][rng.choice(['R%dusr' % rng.randrange(13), 'SPusr', 'SPsvc', 'LRusr'])] = 0x100000000 - rng.choice([4, 8, 12, 16, 20, 32, 64, 3, 6])
+        if rng.random() < 0.6:
+            reg0['sys']['sctlr'] &= ~1
+    if item['k'] == 'stream' and rng.random() < 0.1:
+        core['monitors_pass'] = True         # an integrator's exclusive monitors (the stock ones are mocks that never grant): store-exclusives really store
     if item['k'] == 'stream' and rng.random() < 0.06:
         core['twin'] = rng.choice([20, 50, 100])
     if item['k'] in ('stream', 'sweep16') and rng.random() < 0.08:
